@@ -285,6 +285,7 @@ func checkC02(w *World, r *Report) {
 	r.Explanation = "Decides race-freedom of the engine's own shared memory under every schedule, by ownership classes plus locksets: (R02.1) in every function reachable from the concurrent API roots (Engine.Render, RenderTo, Load, ParseTemplate, RegisterString), every write to a field of a long-lived struct (Engine, Environment, Template, loaders, extensions, …) or of a package-level variable, on an object that is not fresh in that function, is made while the sibling mutex of that struct is held, a location without a sibling mutex is never written from those roots, and every read of a location that is so written holds the same lock; per-call objects (Parser, RenderContext, tokenizer, buffers) are owned by one goroutine by the pool hand-off rule R01.4 and parse-tree objects are immutable after publication by R01.2; (R02.2) the directory against which ./ and ../ template names are resolved in a Node's Render never derives from a field of *Engine; (R02.3) every Lock without a deferred Unlock reaches its Unlock on every path. Not decided: that concurrent results equal serial results (an equivalence over schedules); races inside user callbacks and user io.Writers; configuration calls racing with renders. (R02.4) no Return or Panic in that code is control dependent on a shared integer location (field of a long-lived struct or package variable) that calls which may run concurrently write, by a store or a sync/atomic operation — a per-render quantity kept on the engine is the sum over all goroutines; and no call made inside a lock region can reach an acquisition of the same (non re-entrant) mutex."
 	r.Explanation += " Rules added in later rounds: (R02.4) counters written from concurrent roots never decide a return/panic; read locks do not license writes; (R02.5) registered trees are never released."
 	r.Explanation += " Round 9: (R02.6) no struct holding a mutex is passed or copied by value."
+	r.Explanation += " Round 14: (R02.7) objects of other packages kept in package-level variables are used only through goroutine-safe types, or under a lock."
 	r.Explanation += " Round 10: taint from shared counters passes through local result slots."
 	r.RuleText = "obligation = one access to a shared location from the concurrent roots (writes and the reads of written locations), one directory expression, one lock region; non-trivial = all"
 	r.Trusted = []string{"class table: per-call types " + strings.Join(sortedKeys(classLocal), ", ") + " and Node implementations; every other named struct type of the package and every package variable is shared", "call graph over-approximation"}
